@@ -393,7 +393,7 @@ def rule_btree_iter(text, ctx):
     return re.sub(r'in &([\w.]*\.edges) \{', f, text)
 
 
-def rule_foreach(text, ctx):
+def rule_foreach(text, ctx, bind=False):
     """R6: `RECV.for_each(|PAT| EXPR);` -> `for PAT in RECV { EXPR; }` (statement level only)."""
     while True:
         toks = L.code_toks(text)
@@ -417,7 +417,10 @@ def rule_foreach(text, ctx):
         if not hit:
             return text
         s, e, recv, pat, body = hit
-        new = 'for %s in %s { %s; }' % (pat, recv, body)
+        if bind:
+            new = '{ let verif_iter = %s; for %s in verif_iter { %s; } }' % (recv, pat, body)
+        else:
+            new = 'for %s in %s { %s; }' % (pat, recv, body)
         ctx.note('R6', text[s:e], new)
         text = text[:s] + new + text[e:]
 
@@ -554,6 +557,8 @@ def apply_fn(text, spec, ctx, assoc_types=None, canary=False):
         text = re.sub(r'\b(ListItem|State)::default\(\)', _d, text)
     if 'R6' in spec.rules:
         text = rule_foreach(text, ctx)
+    if 'R6b' in spec.rules:
+        text = rule_foreach(text, ctx, bind=True)
     if 'R13' in spec.rules:
         text = rule_btree_iter(text, ctx)
     if 'R7' in spec.rules:
